@@ -611,12 +611,14 @@ def completion_check(I, strict_pending=True):
 
 
 def completion_liveness(I):
-    """the other half: an operation whose final acknowledgement HAS been fed to a serving, never held run() is complete at
-    the end of the script. Only judged on scripts without HOLD / DROPCTX / DROPFUT / transport faults / a second SETUP,
-    and only while run() has not returned."""
+    """the other half: an operation whose final acknowledgement HAS been fed to a serving run() is complete at the end of the
+    script, unless the script still holds its future (or the context task) at the end. Only judged on scripts without
+    DROPCTX / DROPFUT / transport faults / a second SETUP, and only while run() has not returned."""
     out = []
     ks = [e['kind'] for e in I.events]
-    if any(k in ('hold', 'dropctx', 'dropfut', 'eof', 'panic', 'markdisc') for k in ks) or ks.count('setup') > 1:
+    if any(k in ('dropctx', 'dropfut', 'eof', 'panic', 'markdisc') for k in ks) or ks.count('setup') > 1:
+        return out
+    if 'ctx' in I.held:
         return out
     if any(e['kind'] == 'ret' and e['call'] == 'run' for e in I.events) or 'werr' in I.cfg or 'wzero' in I.cfg:
         return out
@@ -632,14 +634,19 @@ def completion_liveness(I):
     pings = [op for op in I.ops.values() if op.kind == 'PING' and op.w]
     pings.sort(key=lambda o: o.w[0][0])
     for op in pings[:npingresp]:
-        if op.done is None and op.dropped is None:
+        if op.done is None and op.dropped is None and f'op{op.id}' not in I.held:
             out.append((I.name, op.seg, f'op{op.id}: its PINGRESP was fed but the ping never completed'))
     for op in I.ops.values():
-        if op.done is not None or op.dropped is not None or op.pid is None or not op.w:
+        if op.done is not None or op.dropped is not None or op.pid is None or not op.w or f'op{op.id}' in I.held:
             continue
         kinds = {'PUBLISH': [4] if op.qos == 1 else [7, 5], 'SUBSCRIBE': [9], 'UNSUBSCRIBE': [11]}.get(op.kind, [])
         for t in kinds:
             sg = last.get((t, op.pid))
+            if t == 7 and sg is not None:
+                # a PUBCOMP concludes the exchange only when it answers the PUBREL (written before it was fed)
+                rel = [w[0] for w in op.w if w[2][0] >> 4 == 6]
+                if not rel or rel[0] > sg:
+                    continue
             if sg is not None and sg >= op.w[0][0]:
                 out.append((I.name, sg, f'op{op.id} ({op.kind} pid {op.pid}): its acknowledgement (type {t}) was fed at segment {sg} but the operation never completed'))
                 break
@@ -745,7 +752,12 @@ def o_C07(I, check_end=True):
     ended = {}
     dropctx = [e['seg'] for e in I.events if e['kind'] == 'dropctx']
     removed = set()      # streams dropped / held: only the prefix relation is required
+    # a packet the standard calls malformed (e.g. a Variable Byte Integer in a longer than minimal form) leaves the property's
+    # domain, whatever the client makes of it: nothing from that read on is judged here (the correspondence still compares it)
+    cut = min([e['seg'] for e in I.events if e['kind'] == 'in' and e['pkt'] is None and e.get('ctx') == 'run'], default=None)
     for e in I.events:
+        if cut is not None and e['seg'] >= cut:
+            break
         if e['kind'] == 'item':
             got.setdefault(e['st'], []).append((e['seg'], e['text']))
         if e['kind'] == 'endst':
@@ -761,13 +773,13 @@ def o_C07(I, check_end=True):
             out.append((I.name, items[min(k, len(items) - 1)][0], f'st{st}: item {k} is `{have[k] if k < len(have) else None}`, expected `{want[k] if k < len(want) else None}`'))
     streams = {int(e['toks'][0]) for e in I.events if e['kind'] == 'stream'}
     for st in streams:
-        if st in removed or dropctx and st not in ended:
+        if st in removed or dropctx and st not in ended or cut is not None:
             continue
         want = [v for s, v in exp.get(st, [])]
         have = [v for s, v in got.get(st, [])]
         if len(have) < len(want) and not dropctx and 'ctx' not in [x.get('task') for x in I.events if x['kind'] == 'hold']:
             out.append((I.name, len(I.segs) - 1, f'st{st}: {len(want) - len(have)} message(s) never delivered, first `{want[len(have)]}`'))
-    if check_end:
+    if check_end and cut is None:
         for st, seg in ended.items():
             if not dropctx or seg < dropctx[0]:
                 if not expired:
@@ -1191,6 +1203,53 @@ def o_C17(I):
             if p['type'] == 7:
                 unfinished = [x for x in unfinished if x[0] != ('rel', p['pid'])]
     close_resume()
-    if expired:
-        pass
-    return out + completion_check(I)
+    return out + completion_check(I) + resumed_completions(I)
+
+
+def resumed_completions(I):
+    """the other half of C17: while the session state is kept (no resume found it expired) a QoS>0 publish whose PUBLISH was
+    written neither fails with ContextExited when its connection ends, nor stays pending once its final acknowledgement has
+    been read by a later run(). Not judged after an expiry, on the one-second boundary, or when the Context was dropped."""
+    out = []
+    sei, ago, lost = 0, None, False
+    last = {}
+    for e in I.events:
+        k = e['kind']
+        if k == 'dropctx':
+            lost = True
+        if k == 'call' and e['call'] == 'connect':
+            sei = int(e['f'].get('sei', ['0'])[-1])
+        if k == 'in' and e['pkt'] and e['pkt']['type'] == 2:
+            v = pget(e['pkt']['props'], 17)
+            if v is not None:
+                sei = v
+        if k == 'markdisc':
+            ago = int(e['toks'][0])
+        if k == 'call' and e['call'] == 'run' and ago is not None:
+            if sei == 0 or (sei != 4294967295 and sei <= ago + 1):
+                lost = True          # expired, or too close to the boundary to judge
+            ago = None
+        if k == 'done' and e['op'] is not None and e['text'] == 'err ContextExited' and not lost:
+            op = e['op']
+            if op.kind == 'PUBLISH' and op.qos > 0 and op.w:
+                out.append((I.name, e['seg'], f'op{op.id} (QoS {op.qos} publish, written) failed with ContextExited although the session state was kept'))
+        if k == 'in' and e['pkt'] is not None and e['ctx'] == 'run' and not e.get('ctxheld') and not lost:
+            p = e['pkt']
+            if p['type'] in (4, 7) or (p['type'] == 5 and p['reason'] >= 0x80):
+                last[(p['type'], p['pid'])] = e['seg']
+    if lost or 'ctx' in I.held or 'werr' in I.cfg or 'wzero' in I.cfg:
+        return out
+    for op in I.ops.values():
+        if op.kind != 'PUBLISH' or not op.qos or op.done is not None or op.dropped is not None or op.pid is None or not op.w \
+                or f'op{op.id}' in I.held:
+            continue
+        for t in ([4] if op.qos == 1 else [7, 5]):
+            sg = last.get((t, op.pid))
+            if t == 7 and sg is not None:
+                rel = [w[0] for w in op.w if w[2][0] >> 4 == 6]
+                if not rel or rel[0] > sg:
+                    continue
+            if sg is not None and sg > op.w[0][0]:
+                out.append((I.name, sg, f'op{op.id} (QoS {op.qos} publish pid {op.pid}): its final acknowledgement (type {t}) was read at segment {sg} but the original future never completed'))
+                break
+    return out
